@@ -62,7 +62,6 @@ type merged struct {
 	extra       map[string]any
 	raceReports []string
 	raceRuns    int64
-	e3          map[string]any
 }
 
 func newMerged() *merged {
